@@ -45,6 +45,9 @@ def run(ctx):
   for rep in range(reps):
     for name in fits.NAMES:
       data = fits.make_data(rng, d=int(rng.integers(2, 5)))
+      if name == 'RCA' or rng.random() < 0.5:    # (contiguous chunk ids are what RCA_Supervised generates)
+        data = fits.encode_labels(rng, data)       # class labels / chunk ids are names (1-based, gapped)
+      ctx.hist('label_encoding', data.get('label_encoding', '0..C-1'))
       X, d = data['X'], data['d']
       kw = fits.sdml_fix_balance(name, fits.base_kwargs(name, data), data)
       if name in ('NCA', 'MLKR'):
